@@ -4,6 +4,7 @@
 root, then the repository's test suite on the mutants no check alarms on, and read what survives both."""
 import os, re, sys, json, subprocess, tempfile, shutil
 OUT = sys.argv[1]
+EQUIV = len(sys.argv) > 2 and sys.argv[2] == 'equiv'      # behaviour-preserving one-line rewrites: every alarm on one of these is a false alarm
 MODE2 = len(sys.argv) > 2 and sys.argv[2] == 'mode2'      # second operator set: conditions, `?`, argument order
 FILES = ['cadence/src/builder.rs', 'cadence/src/client.rs', 'cadence/src/io.rs', 'cadence/src/types.rs', 'cadence/src/sinks/core.rs',
          'cadence/src/sinks/queuing.rs', 'cadence/src/sinks/udp.rs', 'cadence/src/sinks/unix.rs', 'cadence/src/sinks/spy.rs',
@@ -89,6 +90,62 @@ def main():
                 if v > 0:
                     muts.append((m.start(), m.group(1), str(v - 1)))
             s = code.strip()
+            if EQUIV:
+                muts = []
+                flip = {'>': '<', '<': '>', '>=': '<=', '<=': '>=', '==': '==', '!=': '!='}
+                OPND = r'[\w.:()&*]+(?: as \w+)?'
+                for m2 in re.finditer(r'(?<![\w.:()&*])(' + OPND + r') (>=|<=|==|!=|>|<) (' + OPND + r')(?![\w.:(&*])', code):
+                    a_, op_, b_ = m2.groups()
+                    if a_ in ('if', 'while', 'let', 'return', '=') or b_ in ('{',):
+                        continue
+                    muts.append((code[:m2.start()] + '%s %s %s' % (b_, flip[op_], a_) + code[m2.end():], 'comparison written the other way round'))
+                m_ = re.match(r'^(\s*)([\w.*]+) \+= (.+);\s*$', code)
+                if m_:
+                    muts.append(('%s%s = %s + %s;' % (m_.group(1), m_.group(2), m_.group(2).lstrip('*') if False else m_.group(2), m_.group(3)), '`x += y` as `x = x + y`'))
+                for m2 in re.finditer(r'(?<![\w.:()&*])(' + OPND + r') \+ (' + OPND + r')(?![\w.:(&*])', code):
+                    a_, b_ = m2.groups()
+                    muts.append((code[:m2.start()] + '%s + %s' % (b_, a_) + code[m2.end():], 'operands of `+` swapped'))
+                for a_, b_, w_ in (('.is_empty()', '.len() == 0', 'is_empty as len() == 0'), ('Ordering::Acquire', 'Ordering::SeqCst', 'stronger ordering'),
+                                   ('Ordering::Release', 'Ordering::SeqCst', 'stronger ordering'), ('Ordering::AcqRel', 'Ordering::SeqCst', 'stronger ordering'),
+                                   ('Ordering::Relaxed', 'Ordering::SeqCst', 'stronger ordering'), ('u64::MAX as u128', 'u128::from(u64::MAX)', 'lossless cast as From'),
+                                   ('.to_string()', '.to_owned()', 'to_owned for to_string'), ('.is_ok()', '.ok().is_some()', 'is_ok via ok()'),
+                                   ('.is_err()', '.err().is_some()', 'is_err via err()'), ('.is_some()', '.iter().next().is_some()', 'is_some via iter'),
+                                   ('.clone()', '.clone().clone()', 'a clone of a clone'), ('let _ = ', 'drop(', None), ('.unwrap()', '.expect("checked above")', 'expect for unwrap'),
+                                   ('.iter()', '.iter().take(usize::MAX)', 'iter().take(MAX)'), ('(len as u64)', '(u64::try_from(len).unwrap_or(u64::MAX))', 'checked cast that cannot fail')):
+                    if w_ is None:
+                        continue
+                    st_ = 0
+                    while True:
+                        j_ = code.find(a_, st_)
+                        if j_ < 0:
+                            break
+                        if a_ == '.is_empty()' and j_ > 0 and code[:j_].rstrip().endswith('!'):
+                            st_ = j_ + 1
+                            continue
+                        muts.append((code[:j_] + b_ + code[j_ + len(a_):], w_))
+                        st_ = j_ + len(a_)
+                m_ = re.match(r'^(\s*)let _ = (.+);\s*$', code)
+                if m_:
+                    muts.append(('%sdrop(%s);' % (m_.group(1), m_.group(2)), '`let _ = x` as `drop(x)`'))
+                for nl_, what_ in muts:
+                    if nl_ == code:
+                        continue
+                    new = lines[:i] + [nl_] + lines[i + 1:]
+                    desc = 'line %d: %s: %s' % (i + 1, what_, l.strip())
+                    k += 1
+                    d = os.path.join(OUT, tag, '%04d' % k)
+                    os.makedirs(d, exist_ok=True)
+                    tmp = tempfile.mkdtemp(prefix='mut_')
+                    os.makedirs(os.path.join(tmp, 'a', os.path.dirname(f)))
+                    os.makedirs(os.path.join(tmp, 'b', os.path.dirname(f)))
+                    open(os.path.join(tmp, 'a', f), 'w').write(text)
+                    open(os.path.join(tmp, 'b', f), 'w').write('\n'.join(new))
+                    p = subprocess.run(['diff', '-u', os.path.join('a', f), os.path.join('b', f)], cwd=tmp, stdout=subprocess.PIPE)
+                    open(os.path.join(d, 'patch.diff'), 'wb').write(p.stdout)
+                    json.dump({'file': f, 'desc': desc}, open(os.path.join(d, 'meta.json'), 'w'))
+                    shutil.rmtree(tmp)
+                    n += 1
+                continue
             if MODE2:
                 muts = []
                 ind = l[:len(l) - len(l.lstrip())]
